@@ -69,6 +69,19 @@ PathChars()
     return pathValid;
 }
 
+/// Characters which are valid within the path-and-query string kept by Uri::path()
+static const CharacterSet &
+PathAndQueryChars()
+{
+    /*
+     * RFC 3986 section 3.4
+     *
+     *   query         = *( pchar / "/" / "?" )
+     */
+    static const auto pathAndQueryValid = CharacterSet("query", "?") + PathChars();
+    return pathAndQueryValid;
+}
+
 /**
  * Governed by RFC 3986 section 2.1
  */
@@ -784,7 +797,8 @@ AnyP::Uri::absolutePath() const
 {
     if (absolutePath_.isEmpty()) {
         // TODO: Encode each URI subcomponent in path_ as needed.
-        absolutePath_ = Encode(path(), PathChars());
+        // path_ also holds the query component (if any)
+        absolutePath_ = Encode(path(), PathAndQueryChars());
     }
 
     return absolutePath_;
